@@ -195,10 +195,7 @@ def run(R):
             it = [t for bb, t in dc.calls() if t.get('name') in ('iter', 'into_iter') and t['args'] and mentions_field(dc.origin(t['args'][0]), 'details') and (t['name'] == 'iter' or '&' in str(t.get('self_ty') or t.get('ga') or ''))]
             it = [t for t in it if not const_table(ty, dc.origin(t['args'][0]))]
             R.check(len(it) == 1 and not dc.calls(name='filter') and not dc.calls(name='rev') and not dc.calls(name='skip'), 'C20.R1', '%s:iterates-all-in-order' % label, site(dc), 'iterates self.details.iter() without filtering/reordering')
-        # (e) getters
-        for k in kinds:
-            gb = ty.body(re.compile(r'<generated::google_rpc::Status as richer_error::RpcStatusExt>::get_details_%s$' % field_of[k]))
-            R.saw(gb)
+        def getter_facts(gb):
             # the URL the getter compares type_url with, and the kind it decodes — in the getter itself or in the closures it
             # hands to iterator adaptors (possibly written in a generic helper: T is then the helper's type argument at this call)
             gfam = family(ty, gb)
@@ -222,12 +219,26 @@ def run(R):
                         if any(mentions_field(x_, 'type_url') for x_ in sides):
                             for x_ in sides:
                                 v_ = const_value(ty, resolve_env(ty, m_, x_, within=gfam))
+                                if v_ is None and len(gen_arg.get(m_.path) or []) == 1:
+                                    # `T::URL` of a private trait in a generic helper: the constant of the impl for this getter's T
+                                    v_ = trait_const_value(ty, x_, gen_arg[m_.path][0])
                                 if isinstance(v_, str):
                                     cmp_urls.append(v_)
+            return cmp_urls, fa
+        # (e) getters
+        for k in kinds:
+            gb = ty.body(re.compile(r'<generated::google_rpc::Status as richer_error::RpcStatusExt>::get_details_%s$' % field_of[k]))
+            R.saw(gb)
+            cmp_urls, fa = getter_facts(gb)
             R.check(len(cmp_urls) == 1 and urls.get(cmp_urls[0]) == k and fa == [k], 'C20.R1', 'getter:%s' % k, site(gb), 'get_details_%s matches %r and decodes %r' % (field_of[k], cmp_urls, fa))
             st = ty.body(re.compile(r'<tonic::Status as richer_error::StatusExt>::get_details_%s$' % field_of[k]))
             inner = [t for bb, t in st.calls(name='get_details_%s' % field_of[k])]
-            R.check(len(inner) == 1 and len(fam_calls(family(ty, st), name='decode')) == 1, 'C20.R1', 'status-getter:%s' % k, site(st), 'Status::get_details_%s decodes pb::Status and delegates' % field_of[k])
+            okst = len(inner) == 1 and len(fam_calls(family(ty, st), name='decode')) == 1
+            if not inner:
+                # .. or decodes pb::Status and runs the same search itself (through a shared generic helper): same URL, same kind
+                cu_, fa_ = getter_facts(st)
+                okst = len([1 for m_, bb_, t_ in fam_calls(family(ty, st), name='decode') if 'Status' in str(t_.get('self_ty') or t_.get('fn') or '')]) == 1 and len(cu_) == 1 and urls.get(cu_[0]) == k and fa_ == [k]
+            R.check(okst, 'C20.R1', 'status-getter:%s' % k, site(st), 'Status::get_details_%s decodes pb::Status and delegates' % field_of[k])
         # (g) From<T> for ErrorDetail
         for k in kinds:
             fb = [b for b in ty.bodies if re.search(r'<richer_error::error_details::vec::ErrorDetail as std::convert::From<richer_error::std_messages::\w+::%s>>::from$' % k, b.path)]
